@@ -4,14 +4,19 @@ package main
 // raised inside group bodies and recovered by the caller) executed against a REAL Flame twice:
 // once as written and once as the flat sequence of f.Route(singleMethod, fullPath, allHandlers)
 // calls computed by this file's own flattening (flatRun, which never calls Group/Combo/Routes/
-// Any/AutoHead/Get…); then probe requests are served by both.
+// Any/AutoHead/Get…); then probe requests are served by both.  A Headers() call on the *Route a declaration returned
+// is, in the flat list, the same call on the *Route of every single-method registration that declaration stands for
+// (Get under AutoHead returns the GET route only), made once all of them are registered.
 //
 //	NEW dsl <m|x> <wrap 0|1>     m: also compared with the Lean model; x: rich paths, program vs flat only
 //	S route <method> <path> <ids> | S verb <name> <path> <ids> | S any <path> <ids>
 //	S routes <path> <methods> <args> | S combo <path> <ids> <calls>
 //	S group <path> <ids> … S end | S recover … S end | S autohead <0|1> | S panic      -> "s"
+//	S headers <k:v,k:v,…|->              mode x only, right after a route / verb / any / routes line: .Headers(k, v, …) is
+//	                                     called on the *Route that declaration returned (several lines = several calls)
 //	RUN                                  -> "run <outcome> <recovered panics> <eq|NEQ>"   (x: "run x <eq|NEQ>")
 //	Q <method> <route> <request path>    -> "<reg <handler trace>|none> <eq|NEQ>"          (x: "x <eq|NEQ>")
+//	Q <method> <route> <request path> <k:v,…>   mode x only: the request carries these header fields
 //
 // strings are hex; ids are "1.2.3" or "-"; args are "s:<hex>,f:<id>,…"; calls are "post:5.6;put:-".
 // Handler k appends k to the per-request trace and returns nothing; its Go type is chosen by
@@ -66,6 +71,7 @@ type dStmt struct {
 
 	hs   []flamego.Handler // prepared handler slice (spare capacity / shared backing array)
 	argv []flamego.Handler // routes: strings and funcs
+	hdrs [][]string        // the Headers() calls made on the returned *Route, each a list of key, expression, …
 	gp   dPath             // generator only: the FULL path of a call (all enclosing group paths ++ its own)
 	own  dPath             // generator only: the statement's own path (calls and groups)
 }
@@ -138,6 +144,42 @@ func dIsVerb(v string) bool {
 	return false
 }
 
+func dPairs(ps []string) string {
+	if len(ps) == 0 {
+		return "-"
+	}
+	var out []string
+	for i := 0; i+1 < len(ps); i += 2 {
+		out = append(out, hx(ps[i])+":"+hx(ps[i+1]))
+	}
+	return strings.Join(out, ",")
+}
+
+// dParsePairs: "-" or a comma list of <hex>:<hex>
+func dParsePairs(s string) ([]string, bool) {
+	if s == "-" {
+		return nil, true
+	}
+	var out []string
+	for _, it := range strings.Split(s, ",") {
+		kv := strings.Split(it, ":")
+		if len(kv) != 2 {
+			return nil, false
+		}
+		k, ok1 := dHexOK(kv[0])
+		v, ok2 := dHexOK(kv[1])
+		if !ok1 || !ok2 {
+			return nil, false
+		}
+		out = append(out, k, v)
+	}
+	return out, true
+}
+
+func dReturnsRoute(kind string) bool {
+	return kind == "route" || kind == "verb" || kind == "any" || kind == "routes"
+}
+
 func emitStmts(emit Emit, ss []*dStmt) {
 	for _, s := range ss {
 		switch s.kind {
@@ -187,6 +229,9 @@ func emitStmts(emit Emit, ss []*dStmt) {
 			emit("S autohead %d", b)
 		case "panic":
 			emit("S panic")
+		}
+		for _, h := range s.hdrs {
+			emit("S headers %s", dPairs(h))
 		}
 	}
 }
@@ -442,6 +487,16 @@ func dComboFn(c *flamego.ComboRoute, v string) func(...flamego.Handler) *flamego
 	return c.Trace
 }
 
+// dHeaders makes the statement's Headers() calls on the routes given (the one *Route the declaration returned; in the
+// flat reading the *Route of every single-method registration it stands for)
+func dHeaders(s *dStmt, rts ...*flamego.Route) {
+	for _, h := range s.hdrs {
+		for _, rt := range rts {
+			rt.Headers(h...)
+		}
+	}
+}
+
 // exec runs the program as written, through the DSL of the real router
 func (x *dRun) exec(ss []*dStmt) {
 	f := x.f
@@ -449,13 +504,13 @@ func (x *dRun) exec(ss []*dStmt) {
 		s := s
 		switch s.kind {
 		case "route":
-			f.Route(s.method, s.path, s.hs)
+			dHeaders(s, f.Route(s.method, s.path, s.hs))
 		case "verb":
-			dVerbFn(f, s.method)(s.path, s.hs...)
+			dHeaders(s, dVerbFn(f, s.method)(s.path, s.hs...))
 		case "any":
-			f.Any(s.path, s.hs...)
+			dHeaders(s, f.Any(s.path, s.hs...))
 		case "routes":
-			f.Routes(s.path, s.methods, s.argv...)
+			dHeaders(s, f.Routes(s.path, s.methods, s.argv...))
 		case "combo":
 			c := f.Combo(s.path, s.hs...)
 			for _, cl := range s.calls {
@@ -496,7 +551,7 @@ func dMethodsOf(m string) []string {
 }
 
 // flatRoute: one f.Route per single method, fresh exact slices, full path, full handler list
-func (x *dRun) flatRoute(method, path string, ids []int) {
+func (x *dRun) flatRoute(method, path string, ids []int) (rts []*flamego.Route) {
 	ms := dMethodsOf(method)
 	if ms == nil {
 		panic(dTok("unknownMethod"))
@@ -506,8 +561,9 @@ func (x *dRun) flatRoute(method, path string, ids []int) {
 		for _, id := range ids {
 			hs = append(hs, dHandler(id))
 		}
-		x.f.Route(m, path, hs)
+		rts = append(rts, x.f.Route(m, path, hs))
 	}
+	return rts
 }
 
 func dCat(a, b []int) []int {
@@ -519,22 +575,25 @@ func dCat(a, b []int) []int {
 // flatRun reads the program with the group prefix as an environment; only the AutoHead flag is
 // carried from statement to statement (in `ah`, never in the router).
 func (x *dRun) flatRun(ss []*dStmt, pfx string, hpfx []int, ah *bool) {
-	verb := func(v, path string, ids []int) {
-		x.flatRoute(strings.ToUpper(v), pfx+path, dCat(hpfx, ids))
+	verb := func(v, path string, ids []int) []*flamego.Route {
+		rts := x.flatRoute(strings.ToUpper(v), pfx+path, dCat(hpfx, ids))
 		if v == "get" && *ah {
-			x.flatRoute("HEAD", pfx+path, dCat(hpfx, ids))
+			x.flatRoute("HEAD", pfx+path, dCat(hpfx, ids)) // Get returns the GET route; the HEAD twin is a registration of its own
 		}
+		return rts
 	}
 	for _, s := range ss {
 		switch s.kind {
 		case "route":
-			x.flatRoute(s.method, pfx+s.path, dCat(hpfx, s.ids))
+			dHeaders(s, x.flatRoute(s.method, pfx+s.path, dCat(hpfx, s.ids))...)
 		case "verb":
-			verb(s.method, s.path, s.ids)
+			dHeaders(s, verb(s.method, s.path, s.ids)...)
 		case "any":
+			var rts []*flamego.Route
 			for _, m := range dMethodsAll {
-				x.flatRoute(m, pfx+s.path, dCat(hpfx, s.ids))
+				rts = append(rts, x.flatRoute(m, pfx+s.path, dCat(hpfx, s.ids))...)
 			}
+			dHeaders(s, rts...)
 		case "routes":
 			if s.methods == "" {
 				panic(dTok("emptyMethods"))
@@ -558,9 +617,11 @@ func (x *dRun) flatRun(ss []*dStmt, pfx string, hpfx []int, ah *bool) {
 				}
 				ids = append(ids, a.id)
 			}
+			var rts []*flamego.Route
 			for _, m := range ms {
-				x.flatRoute(m, pfx+s.path, dCat(hpfx, ids))
+				rts = append(rts, x.flatRoute(m, pfx+s.path, dCat(hpfx, ids))...)
 			}
+			dHeaders(s, rts...)
 		case "combo":
 			seen := map[string]bool{}
 			for _, cl := range s.calls {
@@ -599,7 +660,7 @@ func dTop(run func()) (tok string) {
 	return "ok"
 }
 
-func dServe(f *flamego.Flame, method, path string) (int, *dRec) {
+func dServe(f *flamego.Flame, method, path string, hdr []string) (int, *dRec) {
 	rec := &dRec{}
 	dCur = rec
 	w := httptest.NewRecorder()
@@ -608,6 +669,9 @@ func dServe(f *flamego.Flame, method, path string) (int, *dRec) {
 		return -1, rec
 	}
 	req.URL.Path = path
+	for i := 0; i+1 < len(hdr); i += 2 {
+		req.Header.Add(hdr[i], hdr[i+1])
+	}
 	code := -2
 	func() {
 		defer func() {
@@ -653,6 +717,20 @@ func execDsl(args []string, lines [][]string) []string {
 		case len(l) > 0 && l[0] == "S":
 			if ran {
 				outs = append(outs, "bad-op")
+				continue
+			}
+			if len(l) == 3 && l[1] == "headers" {
+				// a call on what the LAST declaration of the open block returned
+				body := stack[len(stack)-1].body
+				pairs, ok := dParsePairs(l[2])
+				if model || !ok || len(body) == 0 || !dReturnsRoute(body[len(body)-1].kind) {
+					bad = true
+					outs = append(outs, "bad-op")
+					continue
+				}
+				last := body[len(body)-1]
+				last.hdrs = append(last.hdrs, pairs)
+				outs = append(outs, "s")
 				continue
 			}
 			st, open, ok := dParseLine(l)
@@ -702,19 +780,24 @@ func execDsl(args []string, lines [][]string) []string {
 			} else {
 				outs = append(outs, "run x "+verdict)
 			}
-		case len(l) == 4 && l[0] == "Q":
+		case (len(l) == 4 || len(l) == 5 && !model) && l[0] == "Q":
 			if bad || !ran {
 				outs = append(outs, "bad-program")
 				continue
 			}
 			route, ok1 := dHexOK(l[2])
 			reqp, ok2 := dHexOK(l[3])
-			if !ok1 || !ok2 {
+			var hdr []string
+			ok3 := true
+			if len(l) == 5 {
+				hdr, ok3 = dParsePairs(l[4])
+			}
+			if !ok1 || !ok2 || !ok3 {
 				outs = append(outs, "bad-op")
 				continue
 			}
-			c1, r1 := dServe(fp, l[1], reqp)
-			c2, r2 := dServe(ff, l[1], reqp)
+			c1, r1 := dServe(fp, l[1], reqp, hdr)
+			c2, r2 := dServe(ff, l[1], reqp, hdr)
 			verdict := "eq"
 			if c1 != c2 || dIds(r1.trace) != dIds(r2.trace) || r1.seen != r2.seen || dParams(r1.params) != dParams(r2.params) {
 				verdict = "NEQ"
@@ -832,7 +915,34 @@ var dRouteMethods = []string{"GET", "POST", "get", "Put", "*", "HEAD", "FOO", ""
 var dRoutesMethods = []string{"GET", "GET,POST", "get, post", " PUT ,DELETE", "GET,,POST", "*", "", "GET,FOO", "HEAD", "GET,HEAD", "GET,GET", "POST,\tPATCH ", "head,get"}
 var dExtraMethods = []string{"POST", "patch", "BAD", "HEAD", "PUT"}
 
+// header constraints put on a declared route, and the header fields probe requests carry (each constraint set is
+// satisfied by some of them and failed by others, an absent header included)
+var dHdrCalls = [][]string{{"X-A", "1"}, {"X-A", "^1$", "X-B", ""}, {}, {"x-b", "a|b"}, {"X-A", "2"}, {"X-A", "1"}}
+var dReqHdrs = [][]string{{"X-A", "1"}, {"X-A", "2"}, {"X-A", "1", "X-B", "a"}, {"X-B", "b"}}
+
+// stmt: in mode x a declaration that returns a *Route is, one time in three, followed by Headers() on it (sometimes by
+// a second call, which replaces the first)
 func (g *dGen) stmt(depth, abs int, chain dPath) *dStmt {
+	s := g.stmt0(depth, abs, chain)
+	if g.mode == "x" && dReturnsRoute(s.kind) && g.r.Intn(3) == 0 {
+		s.hdrs = append(s.hdrs, dHdrCalls[g.r.Intn(len(dHdrCalls))])
+		if g.r.Intn(5) == 0 {
+			s.hdrs = append(s.hdrs, dHdrCalls[g.r.Intn(len(dHdrCalls))])
+		}
+	}
+	return s
+}
+
+func dHasHdrs(ss []*dStmt) bool {
+	for _, s := range ss {
+		if len(s.hdrs) > 0 || dHasHdrs(s.body) {
+			return true
+		}
+	}
+	return false
+}
+
+func (g *dGen) stmt0(depth, abs int, chain dPath) *dStmt {
 	k := g.r.Intn(100)
 	switch {
 	case k < 26:
@@ -1014,6 +1124,7 @@ func dEmitSession(emit Emit, mode string, wrap int, prog []*dStmt) {
 	dCollect(prog, &cands, methods)
 	dWrong(prog, nil, &wrong)
 	seen := map[string]bool{}
+	hdrs := mode == "x" && dHasHdrs(prog)
 	q := func(m string, c dCand) {
 		for _, rq := range c.reqs {
 			k := m + " " + c.route + " " + rq
@@ -1022,6 +1133,13 @@ func dEmitSession(emit Emit, mode string, wrap int, prog []*dStmt) {
 			}
 			seen[k] = true
 			emit("Q %s %s %s", m, hx(c.route), hx(rq))
+			if hdrs && methods[m] {
+				// some route of the program has header constraints: the same request under header fields that
+				// satisfy / fail them (the request above carries none)
+				for _, h := range dReqHdrs {
+					emit("Q %s %s %s %s", m, hx(c.route), hx(rq), dPairs(h))
+				}
+			}
 		}
 	}
 	for _, c := range cands {
@@ -1206,6 +1324,50 @@ func genDsl(r *rand.Rand, tier string, emit Emit) {
 		g.mode, g.next = "m", 0
 		prog := g.block(0, 0, dPath{}, 1+r.Intn(5))
 		dEmitSession(emit, "m", r.Intn(2), prog)
+	}
+	// Headers() on the *Route of every declaration form that returns one (a verb, Get under AutoHead, Route with one
+	// method and with "*", Any, Routes with a comma list / further method strings / "*"), on a static path, a path with a
+	// bind and a path with an optional segment, inside every wrapper (no group, one, two, groups that panic and are
+	// recovered), under each constraint set: the program against its flat reading, requests with and without the headers
+	{
+		P := func(t, long, short string, opt bool) dPath { return dPath{text: t, long: long, short: short, opt: opt} }
+		paths := []dPath{P("/a", "/a", "", false), P("/{x}", "/vx", "", false), P("/a/?o1", "/a/o1", "/a", true)}
+		forms := []func(p dPath) []*dStmt{
+			func(p dPath) []*dStmt { return []*dStmt{{kind: "verb", method: "post", path: p.text, ids: []int{1}, own: p, gp: p}} },
+			func(p dPath) []*dStmt { return []*dStmt{{kind: "verb", method: "get", path: p.text, ids: []int{1}, own: p, gp: p}} },
+			func(p dPath) []*dStmt {
+				return []*dStmt{{kind: "autohead", on: true}, {kind: "verb", method: "get", path: p.text, ids: []int{1}, own: p, gp: p}}
+			},
+			func(p dPath) []*dStmt { return []*dStmt{{kind: "route", method: "GET", path: p.text, ids: []int{1}, own: p, gp: p}} },
+			func(p dPath) []*dStmt { return []*dStmt{{kind: "route", method: "*", path: p.text, ids: []int{1}, own: p, gp: p}} },
+			func(p dPath) []*dStmt { return []*dStmt{{kind: "any", path: p.text, ids: []int{1}, own: p, gp: p}} },
+			func(p dPath) []*dStmt {
+				return []*dStmt{{kind: "routes", path: p.text, methods: "GET, post", args: []dArg{{id: 1}}, own: p, gp: p}}
+			},
+			func(p dPath) []*dStmt {
+				return []*dStmt{{kind: "routes", path: p.text, methods: "GET", args: []dArg{{str: true, s: "PUT"}, {str: true, s: "HEAD"}, {id: 1}}, own: p, gp: p}}
+			},
+			func(p dPath) []*dStmt {
+				return []*dStmt{{kind: "routes", path: p.text, methods: "*", args: []dArg{{id: 1}}, own: p, gp: p}}
+			},
+		}
+		n := 0
+		for _, form := range forms {
+			for _, p := range paths {
+				for w := 0; w < nWraps; w++ {
+					g.mode, g.next = "x", 10
+					ss := form(p)
+					decl := ss[len(ss)-1]
+					decl.hdrs = [][]string{dHdrCalls[n%len(dHdrCalls)]}
+					if n%7 == 3 {
+						decl.hdrs = append(decl.hdrs, dHdrCalls[(n+1)%len(dHdrCalls)])
+					}
+					n++
+					ss[len(ss)-1] = dWrapItem(g, w, decl)
+					dEmitSession(emit, "x", n%2, ss)
+				}
+			}
+		}
 	}
 	for i := 0; i < randomX; i++ {
 		g.mode, g.next = "x", 0
